@@ -136,7 +136,9 @@ def run_case(spec):
 
 
 def classify_other(out):
-    return None
+    from vlib.outcome import F5_CYCLE, is_f5_cycle
+
+    return F5_CYCLE if is_f5_cycle(out) else None
 
 
 def type_applicable(m, args, kws, env):
